@@ -12,7 +12,7 @@ branch, literal method lists).  Every extractor raises Anchor when the shape it 
 import glob
 import os
 import re
-from vcheck import REPO, COQ
+from vcheck import REPO, COQ, VERIF, section_aware_forbidden
 
 LS = os.path.join(REPO, "crates", "emmylua_ls", "src")
 
@@ -301,3 +301,16 @@ def gen_c27():
     t += "Definition async_notifications : list string := %s.\n" % _coq_strs([m for m, _, _ in async_rows])
     changed = write_if_changed(os.path.join(COQ, "theories", "Gen", "C27_Notify.v"), t)
     return {"sync": [m for m, _, _ in sync_rows], "async": [m for m, _, _ in async_rows], "changed": changed}
+
+
+def gate_files(ck, rels):
+    """forbidden-vernacular gate for single files outside the property's own directory (shared Base / Gen files)"""
+    import json
+    for rel in rels:
+        f = os.path.join(COQ, "theories", rel)
+        if not os.path.exists(f):
+            ck.proof_broken("file missing: coq/theories/%s" % rel)
+            continue
+        hits = section_aware_forbidden(f)
+        if hits:
+            ck.proof_broken("forbidden vernacular in %s" % os.path.relpath(f, VERIF), json.dumps(hits[:10]))
